@@ -27,6 +27,9 @@ type parseContext struct {
 	caseInsensitive   map[lexer.TokenType]bool
 	apply             []*contextFieldSet
 	allowTrailing     bool
+	// Raw cursor of the first token matched since the innermost enclosing capture
+	// started, or -1. Elided tokens skipped in front of it are not part of the capture.
+	firstMatch lexer.RawCursor
 }
 
 func newParseContext(lex *lexer.PeekingLexer, lookahead int, caseInsensitive map[lexer.TokenType]bool) parseContext {
@@ -34,7 +37,24 @@ func newParseContext(lex *lexer.PeekingLexer, lookahead int, caseInsensitive map
 		PeekingLexer:    *lex,
 		caseInsensitive: caseInsensitive,
 		lookahead:       lookahead,
+		firstMatch:      -1,
 	}
+}
+
+// FastForward consumes up to and including the (matched) token at rawCursor.
+func (p *parseContext) FastForward(rawCursor lexer.RawCursor) {
+	if p.firstMatch < 0 {
+		p.firstMatch = rawCursor
+	}
+	p.PeekingLexer.FastForward(rawCursor)
+}
+
+// Next consumes and returns the next non-elided token.
+func (p *parseContext) Next() *lexer.Token {
+	if p.firstMatch < 0 {
+		_, p.firstMatch = p.PeekingLexer.PeekAny(func(lexer.Token) bool { return false })
+	}
+	return p.PeekingLexer.Next()
 }
 
 func (p *parseContext) DeepestError(err error) error {
@@ -87,6 +107,9 @@ func (p *parseContext) ApplyFrom(mark int) error {
 func (p *parseContext) Accept(branch *parseContext) {
 	p.apply = append(p.apply, branch.apply...)
 	p.PeekingLexer = branch.PeekingLexer
+	if p.firstMatch < 0 {
+		p.firstMatch = branch.firstMatch
+	}
 	if branch.deepestErrorDepth >= p.deepestErrorDepth {
 		p.deepestErrorDepth = branch.deepestErrorDepth
 		p.deepestError = branch.deepestError
